@@ -179,6 +179,10 @@ class PWalker(Walker):
             self.feat['w%d' % w] += 1
             return list(raws)
         present = [x for x in raws if x is not None]
+        if present and (max(present) - min(present) + 1).bit_length() > 63:
+            # a spread that needs more than 63 increment bits cannot be written (6-bit width field)
+            raws = [None if x is None else present[0] for x in raws]
+            present = [x for x in raws if x is not None]
         if not present:
             self.out.u(top, w)
             self.out.u(0, 6)
